@@ -6,7 +6,6 @@
   and only then `m = std::move(in)`.  What the stream yielded before it failed is the input (`Parsed`).  Core Lean only.
 -/
 import AITB.Model.ModelState
-import AITB.Gen.C06Sites
 namespace AITB.MS
 open AITB
 
